@@ -235,10 +235,16 @@ static void check_stft(int nfft, int nwin, const Win& win, int overlap, vh::Rng&
                     wgt[s * hop + i] += (mi == 0) ? v : v * v;
                 }
             }
-            std::vector<ld> t = wgt;
-            std::sort(t.begin(), t.end());
-            const ld med = t[ylen / 2];
+            //amplification of the inverse transform's rounding error (about 8*eps*log2(nfft)*max|x| per frame sample) by the
+            //normalisation: sum over covering frames of |w|^(pw-1), divided by the accumulated weight
+            std::vector<ld> amp(ylen, 0);
+            for (int s = 0; s < nseg; ++s) {
+                for (int i = 0; i < nwin; ++i) {
+                    amp[s * hop + i] += (mi == 0) ? 1.0L : fabsl(ld(win.w[i]));
+                }
+            }
             const ld mx = maxabs(x);
+            const ld unit = 64 * ref::EPS * std::max<ld>(1, log2l(ld(nfft))) * mx;
             int nonfinite = -1;
             int bad = -1;
             ld worst = 0;
@@ -249,27 +255,36 @@ static void check_stft(int nfft, int nwin, const Win& win, int overlap, vh::Rng&
                     }
                     continue;
                 }
-                if (wgt[i] > 1e-6L * med) {
-                    const ld e = fabsl(ld(y[i]) - ld(x[i]));
-                    if (e > worst) {
-                        worst = e;
-                    }
-                    if (e > 1e-9L * mx && bad < 0) {
-                        bad = i;
-                    }
-                    vh::obs_add("istft_samples_judged");
-                } else {
+                if (!(wgt[i] > 0)) {
                     vh::obs_add("istft_samples_zero_weight");
+                    continue;
+                }
+                //every sample with non-zero weight is judged as long as the reconstruction is numerically meaningful there
+                const ld tol = std::max(1e-9L * mx, unit * amp[i] / wgt[i]);
+                if (tol > 1e-3L * mx) {
+                    vh::obs_add("istft_samples_weight_too_small_to_judge");
+                    continue;
+                }
+                const ld e = fabsl(ld(y[i]) - ld(x[i]));
+                if (e / tol > worst) {
+                    worst = e / tol;
+                }
+                if (e > tol && bad < 0) {
+                    bad = i;
+                }
+                vh::obs_add("istft_samples_judged");
+                if (tol > 1e-9L * mx) {
+                    vh::obs_add("istft_samples_judged_with_small_weight");
                 }
             }
-            vh::obs_max("istft_err_over_maxx", double(worst / mx));
+            vh::obs_max("istft_err_over_tol", double(worst));
             const char* wtail = (win.w[nwin - 1] == 0.0) ? "window_ends_in_zero" : "window_nonzero_end";
             if (nonfinite >= 0) {
                 vh::violation(vh::fmt("C02/istft/nonfinite/%s", wtail), cfg + vh::fmt(" sample %d of %d is not finite (weight there %.3Le)", nonfinite, ylen, wgt[nonfinite]));
             }
             if (bad >= 0) {
                 vh::violation(vh::fmt("C02/istft/mismatch/%s/%s", mi ? "wola" : "ola", range_name(range)),
-                              cfg + vh::fmt(" y[%d]=%.17g x[%d]=%.17g worst abs err %.3Le (max|x|=%.3Le)", bad, y[bad], bad, x[bad], worst, mx));
+                              cfg + vh::fmt(" y[%d]=%.17g x[%d]=%.17g (accumulated weight %.3Le), worst err/tolerance %.3Le (max|x|=%.3Le)", bad, y[bad], bad, x[bad], wgt[bad], worst, mx));
             }
             if (win.name == "hann_per" && nfft == 16) {
                 vh::sample(cfg);
@@ -317,9 +332,9 @@ int main(int argc, char** argv) {
     }
 
     //STFT grid
-    std::vector<int> nffts = {8, 16, 32, 64, 128, 256, 512, 1024, 12, 20, 36, 100, 400, 600, 24, 48, 50, 96, 200};
+    std::vector<int> nffts = {8, 16, 32, 64, 128, 256, 512, 1024, 12, 20, 36, 100, 400, 600, 24, 48, 50, 96, 200, 2048};
     if (thorough) {
-        nffts.push_back(2048);
+        nffts.push_back(4096);
         nffts.push_back(34);
         nffts.push_back(250);
     }
